@@ -264,6 +264,9 @@ def run(ctx: Ctx):
     from .. import callassign as ca
     ca.check_orders(ctx, 150 if not ctx.thorough else 2000)
     ca.check_part(ctx, 150 if not ctx.thorough else 1500, "C09", positional=False)
+    # C3: dict displays: Model/DictAssign.v and the three routes
+    from .. import dictassign as da
+    da.check_part(ctx, 150 if not ctx.thorough else 1500, "C09", orders=120 if not ctx.thorough else 1500)
     # D
     so = run_session_orders(None)
     ctx.count(("sessions",), True, n=8)
@@ -290,6 +293,9 @@ def replay(ctx: Ctx, data):
     if c.get("kind") == "call":
         from .. import callassign as ca
         return ca.replay_case(c)
+    if c.get("kind") in ("dict", "dict-orders"):
+        from .. import dictassign as da
+        return da.replay_case(c)
     if c.get("kind") == "sessions":
         so = run_session_orders(None)
         return "error" not in so["together"] and all("error" not in r and r == so["together"] for _, r in so["orders"])
